@@ -164,3 +164,44 @@ func Run(h func()) (failures []string, skipped bool) {
 	defer mu.Unlock()
 	return append([]string{}, Failures...), false
 }
+
+// ReplayMain is called from each harness package's TestReplay: it runs the
+// harness named by VERIF_ENTRY once per pin file in VERIF_PIN_DIR, each in a
+// subprocess-free fresh state, printing REPLAY-OK / REPLAY-FAIL / REPLAY-SKIP.
+func ReplayMain(harnesses map[string]func()) {
+	entry := os.Getenv("VERIF_ENTRY")
+	h, ok := harnesses[entry]
+	if !ok {
+		fmt.Println("REPLAY-FAIL no such harness", entry)
+		return
+	}
+	dir := os.Getenv("VERIF_PIN_DIR")
+	ents, _ := os.ReadDir(dir)
+	for _, e := range ents {
+		b, err := os.ReadFile(dir + "/" + e.Name())
+		if err != nil {
+			continue
+		}
+		pins = pinFile{}
+		dec := json.NewDecoder(bytesReader(b))
+		dec.UseNumber()
+		if err := dec.Decode(&pins); err != nil {
+			fmt.Println("REPLAY-FAIL bad pin file", err)
+			continue
+		}
+		pinOnce.Do(func() {})
+		mu.Lock()
+		Failures = nil
+		Reached = map[string]bool{}
+		mu.Unlock()
+		fails, skipped := Run(h)
+		switch {
+		case skipped:
+			fmt.Println("REPLAY-SKIP", e.Name())
+		case len(fails) > 0:
+			fmt.Println("REPLAY-FAIL", fails)
+		default:
+			fmt.Println("REPLAY-OK", e.Name())
+		}
+	}
+}
